@@ -6,6 +6,8 @@ lost = []
 for d in sorted(glob.glob('/verif/seeded/C*-m*/')):
     name = os.path.basename(d.rstrip('/'))
     m = json.load(open(d + 'meta.json'))
+    if m.get('superseded'):
+        print(name, 'superseded, skipped'); continue
     checks = m.get('detected_by') or [m['property']]
     r = subprocess.run(['python3', '/verif/tools/retest_seed.py', name] + checks, capture_output=True, text=True)
     line = r.stdout.strip().split('\n')[-1] if r.stdout.strip() else r.stderr[-200:]
